@@ -39,6 +39,9 @@ MONITORS = {
     "C20": {"bin": "mon_c06", "args": ["--prop", "C20"], "quick": 50000, "thorough": 3000000,
             "what": "the RawNode driver of mon_c06 (campaigns, ticks, proposals, higher-term messages, synchronous and asynchronous Readys, late notices; lone voter + learner "
                     "or three voters; <= 19 ops) with only panics reported: no library call may panic under contract-abiding use"},
+    "C12": {"bin": "mon_c12", "quick": 20000, "thorough": 1000000,
+            "what": "real Changer::{simple, enter_joint, leave_joint} + ProgressTracker::apply_conf vs the set-based reference semantics under random change sequences (<= 8 changes, "
+                    "lists of <= 4 single changes over ids 0..6, repeated ids included): result == model, invariant of C12, rejected => untouched, and the ConfState round trip through Raft::new"},
     "C11": {"bin": "mon_c11", "quick": 20000, "thorough": 600000,
             "what": "ProgressTracker::maximal_committed_index / tally_votes of the real crate vs the count-based quorum definitions, "
                     "voter sets of 1..10 members, joint configurations, group commit"},
